@@ -20,7 +20,7 @@ import (
 func init() {
 	core.Register(&core.Property{
 		ID:   "C10",
-		Rule: "memory-effect monitors on the real code: (1) input aliasing - every decoder type decodes buffer B (also as a sub-slice with spare capacity) and a pristine copy, B is overwritten with 0xEE and both values must still be equal; (2) output aliasing / read-only calls - deep dump of the frame before MarshalBinary / MarshalText / Validate* / Set*, returned bytes scribbled over, frame must be unchanged (Set* may change the MIC only); (3) guard bytes - EncryptFRMPayload / EncryptFOpts and Marshal/Validate receive slices embedded in a canary arena for every length 0..64 x alignment 0..15, nothing outside [lo,hi) may change; (4) fresh vs. re-used target - for every decoder type decode(b2) into a value that previously decoded b1 must equal decode(b2) into a zero value (b1/b2 seeded, all-ones/all-zeros, valid encodings); (5) band instances - two GetConfig results per configuration, a seeded Add/Disable/Enable history on one, snapshot and getters of the other unchanged (both creation orders); (6) -race binary: goroutines on distinct values (decode, encrypt, MIC, marshal) while others register proprietary MAC commands and read the registry on 2-4 shared keys; registry operations recorded at the client boundary with one logical clock and checked with porcupine against a last-write register model per key. Distinct = (monitor, type or call site, input class) / (history, key, values observed).",
+		Rule: "memory-effect monitors on the real code: (1) input aliasing - every decoder type decodes buffer B (also as a sub-slice with spare capacity) and a pristine copy, B is overwritten with 0xEE and both values must still be equal; (2) output aliasing / read-only calls - deep dump of the frame before MarshalBinary / MarshalText / Validate* / Set*, returned bytes scribbled over, frame must be unchanged (Set* may change the MIC only); (3) guard bytes - EncryptFRMPayload / EncryptFOpts and Marshal/Validate receive slices embedded in a canary arena for every length 0..64 x alignment 0..15, nothing outside [lo,hi) may change; (4) fresh vs. re-used target - for every decoder type decode(b2) into a value that previously decoded b1 must equal decode(b2) into a zero value (b1/b2 seeded, all-ones/all-zeros, valid encodings; in one case of seven the caller has also written to every exported field of the re-used value between the two decodes); (5) band instances - two GetConfig results per configuration, a seeded Add/Disable/Enable history on one, snapshot and getters of the other unchanged (both creation orders); (6) -race binary: goroutines on distinct values (decode, encrypt, MIC, marshal) while others register proprietary MAC commands and read the registry on 2-4 shared keys; registry operations recorded at the client boundary with one logical clock and checked with porcupine against a last-write register model per key. Distinct = (monitor, type or call site, input class) / (history, key, values observed).",
 		Assumptions: []string{
 			"'all interleavings' is out of reach: the evidence reports the overlapping operation pairs, histories and race-detector runs actually observed",
 			"porcupine v1.3.0 decides linearizability of the recorded histories; a checker timeout would be reported as inconclusive",
@@ -292,6 +292,12 @@ func c10Stale(c *core.Ctx, d c10Decoder, r *core.RNG, mode int) {
 		return
 	}
 	_ = e0 // a failed first decode is an earlier use like any other
+	if mode%7 == 5 {
+		// the earlier use includes the caller writing to the value's exported fields (the full
+		// 32-bit FCnt before a MIC validation, a flag, a payload): every number inverted, every
+		// flag flipped. A decode replaces all of it.
+		core.Guard(func() { core.Scribble(reused) })
+	}
 	// a caller that kept the first result by value (kept := *v) before decoding the next input
 	// into the same variable: what it kept is a decoded value like any other
 	kept := reflect.New(reflect.TypeOf(reused).Elem())
